@@ -27,6 +27,9 @@ type Typestate struct {
 	Filter func(cond ast.Expr, branch bool, s string) bool
 	// AtExit: err != "" if ending the function in state s violates the protocol.
 	AtExit func(s string) string
+	// Cur is the point of the node being transferred (for resolving identifiers through
+	// expanded helpers).
+	Cur Point
 }
 
 // Run explores from the entry with the given initial states. It returns the set of states at
@@ -65,8 +68,9 @@ func (t *Typestate) Run(init []string) (exits map[string]bool, viols []tsViolati
 		if len(it.k.b.Nodes) > 0 {
 			path = append(append([]string{}, path...), t.F.P.posStr(it.k.b.Nodes[0].Pos())+" ["+it.k.s+"]")
 		}
-		for _, n := range it.k.b.Nodes {
+		for ni, n := range it.k.b.Nodes {
 			var nextStates []string
+			t.Cur = Point{it.k.b, ni}
 			for _, s := range states {
 				ns, err := t.Transfer(n, s)
 				if err != "" {
@@ -89,6 +93,9 @@ func (t *Typestate) Run(init []string) (exits map[string]bool, viols []tsViolati
 		}
 		cond := condOf(it.k.b)
 		for si, succ := range it.k.b.Succs {
+			if !succ.Live {
+				continue
+			}
 			for _, s := range states {
 				if cond != nil && t.Filter != nil && !t.Filter(cond, si == 0, s) {
 					continue
